@@ -976,7 +976,7 @@ end
 
 /-- **Every reply made of RESP2 types and RESP3 scalars is exactly one well-formed value on the wire.**
     (`Value.wire`: status lines, integers, nil, bulk strings, arrays of these to any depth; and null, booleans,
-    doubles, big numbers, blob errors and verbatim strings. Maps, sets and pushes are not covered.) Whatever follows it in the stream,
+    doubles, big numbers, blob errors and verbatim strings. Sets of bulk strings and maps with bulk-string keys: `set_reply_is_one_value`, `map_reply_is_one_value` below; pushes and attributes are not covered.) Whatever follows it in the stream,
     a reader takes the serialized reply for one complete value — the reply itself, bulk strings byte for
     byte — and finds the next reply right behind it. -/
 theorem reply_is_one_value (v : Value) (hw : v.wire = true) (rest : Bytes) :
@@ -995,5 +995,297 @@ theorem replies_read_back (vs : List Value) :
   intro fuel pos acc ha hf
   have := parseN_ser vs ha fuel pos [] acc hf
   simpa using this
+
+/-! ### RESP3 aggregates a server sends: sets of bulk strings, maps with bulk-string keys -/
+
+
+theorem sb_tildeq : sb "~?" = [126, 63] := by decide +kernel
+
+theorem serList_bulks_cons (b : Bytes) (bs : List Bytes) :
+    serList ((b :: bs).map .bulk) = ser (.bulk b) ++ serList (bs.map .bulk) := by
+  simp [serList]
+
+/-- a set member that is a bulk string is its own normal form and can be hashed -/
+theorem normKey_bulk (b : Bytes) : normKey (.bulk b) = .bulk b := by simp [normKey, Value.toStr?]
+
+theorem parseNSet_bulks : ∀ (bs : List Bytes), (∀ b ∈ bs, b.length < 2 ^ 63) →
+    ∀ (fuel pos : Nat) (rest : Bytes) (acc : List Value), bs.length + 1 ≤ fuel →
+    parseNSet fuel bs.length (serList (bs.map .bulk) ++ rest) pos acc =
+      .ok (bs.foldl (fun a b => insertSet (.bulk b) a) acc) rest (pos + (serList (bs.map .bulk)).length) := by
+  intro bs
+  induction bs with
+  | nil =>
+    intro _ fuel pos rest acc hf
+    obtain ⟨f, rfl⟩ : ∃ f, fuel = f + 1 := ⟨fuel - 1, by simp at hf; omega⟩
+    simp [parseNSet, serList]
+  | cons b bs ih =>
+    intro hl fuel pos rest acc hf
+    obtain ⟨f, rfl⟩ : ∃ f, fuel = f + 1 := ⟨fuel - 1, by simp at hf; omega⟩
+    obtain ⟨g, rfl⟩ : ∃ g, f = g + 1 := ⟨f - 1, by simp at hf; omega⟩
+    rw [serList_bulks_cons, List.append_assoc]
+    simp only [List.length_cons]
+    unfold parseNSet
+    simp only
+    rw [parse_bulk b _ g pos (hl b (by simp))]
+    simp only [normKey_bulk, Value.unhashable, Bool.false_eq_true, ↓reduceIte]
+    rw [ih (fun x hx => hl x (by simp [hx])) (g + 1) _ rest _ (by simp at hf ⊢; omega)]
+    simp [List.foldl_cons, Nat.add_assoc]
+
+theorem bulk_beq (a b : Bytes) : ((Value.bulk a) == (Value.bulk b)) = (a == b) := by
+  show Value.beq _ _ = _
+  simp [Value.beq]
+
+theorem any_bulk_beq (acc : List Bytes) (b : Bytes) :
+    ((acc.map Value.bulk).any (· == Value.bulk b)) = acc.contains b := by
+  induction acc with
+  | nil => simp
+  | cons a r ih => simp only [List.map_cons, List.any_cons, ih, bulk_beq, List.contains_cons]; rw [Bool.beq_comm (a := b)]
+
+/-- distinct members go in one after the other, in order -/
+theorem foldl_insertSet_nodup : ∀ (bs acc : List Bytes), (acc ++ bs).Nodup →
+    bs.foldl (fun a b => insertSet (.bulk b) a) (acc.map .bulk) = (acc ++ bs).map .bulk := by
+  intro bs
+  induction bs with
+  | nil => intro acc _; simp
+  | cons b bs ih =>
+    intro acc hn
+    have hnot : acc.contains b = false := by
+      have := List.nodup_append.mp hn
+      have h3 := this.2.2 b
+      simp only [List.contains_eq_mem, decide_eq_false_iff_not]
+      intro hmem
+      exact h3 hmem b (by simp) rfl
+    have hins : insertSet (.bulk b) (acc.map .bulk) = (acc ++ [b]).map .bulk := by
+      simp only [insertSet, any_bulk_beq, hnot, Bool.false_eq_true, ↓reduceIte]; simp
+    rw [List.foldl_cons, hins, ih (acc ++ [b]) (by simpa [List.append_assoc] using hn)]
+    simp [List.append_assoc]
+
+/-- **RESP3 set replies** (what SMEMBERS, SUNION … send after HELLO 3): a set of distinct bulk strings, serialized,
+    is read back as exactly that set, members in the order sent, for every number and size of members. -/
+theorem parse_set_of_bulks (bs : List Bytes) (hn : bs.Nodup) (hc : bs.length < 2 ^ 63) (hl : ∀ b ∈ bs, b.length < 2 ^ 63)
+    (rest : Bytes) (fuel pos : Nat) (hf : bs.length + 2 ≤ fuel) :
+    parseValue fuel false (ser (.set (bs.map .bulk)) ++ rest) pos =
+      .ok (.set (bs.map .bulk)) rest (pos + (ser (.set (bs.map .bulk))).length) := by
+  obtain ⟨f, rfl⟩ : ∃ f, fuel = f + 1 := ⟨fuel - 1, by omega⟩
+  obtain ⟨_, hall, hne, _⟩ := natDigits_spec bs.length
+  have hline : ∀ c ∈ (126 : UInt8) :: natDigits bs.length, c ≠ 13 := by
+    intro c hc
+    rcases List.mem_cons.mp hc with e | e
+    · subst e; decide
+    · exact (hall c e).2
+  have hser : ser (.set (bs.map .bulk)) ++ rest =
+      ((126 : UInt8) :: natDigits bs.length) ++ 13 :: 10 :: (serList (bs.map .bulk) ++ rest) := by
+    simp [ser, serLen, crlf, List.append_assoc]
+  rw [hser]
+  unfold parseValue
+  rw [splitLine_line _ _ hline]
+  simp only
+  have hq : ((126 : UInt8) :: natDigits bs.length == sb "~?") = false := by
+    rw [sb_tildeq]
+    simp only [List.cons_beq_cons, beq_self_eq_true, Bool.true_and]
+    exact digits_ne_q bs.length
+  have c1 : ((126 : UInt8) == 43) = false := by decide
+  have c2 : ((126 : UInt8) == 45) = false := by decide
+  have c3 : ((126 : UInt8) == 36) = false := by decide
+  have c4 : ((126 : UInt8) == 58) = false := by decide
+  have c5 : ((126 : UInt8) == 42) = false := by decide
+  have c6 : ((126 : UInt8) == 37) = false := by decide
+  have c7 : ((126 : UInt8) == 44) = false := by decide
+  have c8 : ((126 : UInt8) == 126) = true := by decide
+  have d1 : ((126 : UInt8) :: natDigits bs.length == sb "#t") = false := by simp [sb_t]
+  have d2 : ((126 : UInt8) :: natDigits bs.length == sb "#f") = false := by simp [sb_f]
+  simp only [c1, c2, c3, c4, c5, c6, c7, c8, d1, d2, hq, Bool.false_eq_true, ↓reduceIte,
+    lineCount, List.drop_succ_cons, List.drop_zero, parseInt64_natDigits bs.length hc]
+  have hnn : ¬ ((bs.length : Int) < 0) := by omega
+  simp only [hnn, ↓reduceIte, Int.toNat_natCast]
+  rw [parseNSet_bulks bs hl f _ rest [] (by omega)]
+  have := foldl_insertSet_nodup bs [] (by simpa using hn)
+  simp only [List.map_nil, List.nil_append] at this
+  rw [this]
+  simp [ser, serLen, crlf]
+  omega
+
+theorem sb_pctq : sb "%?" = [37, 63] := by decide +kernel
+
+
+/-- the entries of a map reply: bulk-string keys, any `wire` value -/
+def mapEntries (kvs : List (Bytes × Value)) : List (Value × Value) := kvs.map fun kv => (.bulk kv.1, kv.2)
+def canonEntries (kvs : List (Bytes × Value)) : List (Value × Value) := kvs.map fun kv => (.bulk kv.1, canon kv.2)
+
+/-- a new key goes to the end -/
+theorem insertMap_new : ∀ (acc : List (Bytes × Value)) (k : Bytes) (v : Value), (∀ kv ∈ acc, kv.1 ≠ k) →
+    insertMap (.bulk k) v (mapEntries acc) = mapEntries (acc ++ [(k, v)]) := by
+  intro acc
+  induction acc with
+  | nil => intro k v _; simp [insertMap, mapEntries]
+  | cons a r ih =>
+    intro k v h
+    have h1 : a.1 ≠ k := h a (by simp)
+    have : ((Value.bulk a.1) == (Value.bulk k)) = false := by rw [bulk_beq]; simpa using h1
+    simp only [mapEntries, List.map_cons, insertMap, this, Bool.false_eq_true, ↓reduceIte, List.cons_append]
+    have := ih k v (fun kv hkv => h kv (by simp [hkv]))
+    simp only [mapEntries] at this
+    rw [this]
+
+theorem parseNMap_entries : ∀ (kvs : List (Bytes × Value)),
+    (∀ kv ∈ kvs, kv.1.length < 2 ^ 63 ∧ kv.2.wire = true) →
+    ∀ (fuel pos : Nat) (rest : Bytes) (acc : List (Bytes × Value)),
+    (acc.map (·.1) ++ kvs.map (·.1)).Nodup →
+    kvs.length + 2 ≤ fuel → (∀ kv ∈ kvs, need kv.2 + kvs.length + 1 ≤ fuel) →
+    parseNMap fuel kvs.length (serPairs (mapEntries kvs) ++ rest) pos (canonEntries acc) =
+      .ok (canonEntries (acc ++ kvs)) rest (pos + (serPairs (mapEntries kvs)).length) := by
+  intro kvs
+  induction kvs with
+  | nil =>
+    intro _ fuel pos rest acc _ hf _
+    obtain ⟨f, rfl⟩ : ∃ f, fuel = f + 1 := ⟨fuel - 1, by simp at hf; omega⟩
+    simp [parseNMap, serPairs, mapEntries]
+  | cons kv kvs ih =>
+    intro hw fuel pos rest acc hn hf hneed
+    obtain ⟨k, v⟩ := kv
+    obtain ⟨f, rfl⟩ : ∃ f, fuel = f + 1 := ⟨fuel - 1, by simp at hf; omega⟩
+    obtain ⟨g, rfl⟩ : ∃ g, f = g + 1 := ⟨f - 1, by simp at hf; omega⟩
+    have hkv := hw (k, v) (by simp)
+    have hser : serPairs (mapEntries ((k, v) :: kvs)) ++ rest =
+        ser (.bulk k) ++ (ser v ++ (serPairs (mapEntries kvs) ++ rest)) := by
+      simp [mapEntries, serPairs, List.append_assoc]
+    rw [hser]
+    simp only [List.length_cons]
+    unfold parseNMap
+    simp only
+    rw [parse_bulk k _ g pos hkv.1]
+    simp only [normKey_bulk]
+    have hnv : need v ≤ g + 1 := by
+      have := hneed (k, v) (by simp); simp at this; omega
+    rw [parse_ser v hkv.2 (g + 1) _ _ hnv]
+    simp only [Value.unhashable, Bool.false_eq_true, ↓reduceIte]
+    have hfresh : ∀ e ∈ acc, e.1 ≠ k := by
+      intro e he hek
+      have := List.nodup_append.mp hn
+      exact this.2.2 e.1 (List.mem_map.mpr ⟨e, he, rfl⟩) k (by simp) hek
+    have hce : ∀ l : List (Bytes × Value), canonEntries l = mapEntries (l.map fun kv => (kv.1, canon kv.2)) := by
+      intro l; simp [canonEntries, mapEntries]
+    have hins : insertMap (.bulk k) (canon v) (canonEntries acc) = canonEntries (acc ++ [(k, v)]) := by
+      rw [hce, hce, insertMap_new _ k (canon v) (by
+        intro e he
+        obtain ⟨e', he', rfl⟩ := List.mem_map.mp he
+        exact hfresh e' he')]
+      simp
+    rw [hins]
+    have hn' : ((acc ++ [(k, v)]).map (·.1) ++ kvs.map (·.1)).Nodup := by
+      simpa [List.append_assoc] using hn
+    rw [ih (fun e he => hw e (by simp [he])) (g + 1) _ rest (acc ++ [(k, v)]) hn' (by simp at hf ⊢; omega)
+      (fun e he => by have := hneed e (by simp [he]); simp at this ⊢; omega)]
+    simp [mapEntries, serPairs, List.append_assoc, Nat.add_assoc]
+
+/-- **RESP3 map replies** (what HGETALL, CONFIG GET, HELLO … send after HELLO 3): a map with distinct bulk-string keys
+    and values of any `wire` kind, serialized, is read back as exactly that map — entries in the order sent, the
+    values as `canon` has them — for every number of entries and every nesting of the values. -/
+theorem parse_map_of_bulk_keys (kvs : List (Bytes × Value)) (hn : (kvs.map (·.1)).Nodup) (hc : kvs.length < 2 ^ 63)
+    (hw : ∀ kv ∈ kvs, kv.1.length < 2 ^ 63 ∧ kv.2.wire = true)
+    (rest : Bytes) (fuel pos : Nat) (hf : kvs.length + 3 ≤ fuel) (hneed : ∀ kv ∈ kvs, need kv.2 + kvs.length + 2 ≤ fuel) :
+    parseValue fuel false (ser (.map (mapEntries kvs)) ++ rest) pos =
+      .ok (.map (canonEntries kvs)) rest (pos + (ser (.map (mapEntries kvs))).length) := by
+  obtain ⟨f, rfl⟩ : ∃ f, fuel = f + 1 := ⟨fuel - 1, by omega⟩
+  obtain ⟨_, hall, hne, _⟩ := natDigits_spec kvs.length
+  have hline : ∀ c ∈ (37 : UInt8) :: natDigits kvs.length, c ≠ 13 := by
+    intro c hc
+    rcases List.mem_cons.mp hc with e | e
+    · subst e; decide
+    · exact (hall c e).2
+  have hlen : (mapEntries kvs).length = kvs.length := by simp [mapEntries]
+  have hser : ser (.map (mapEntries kvs)) ++ rest =
+      ((37 : UInt8) :: natDigits kvs.length) ++ 13 :: 10 :: (serPairs (mapEntries kvs) ++ rest) := by
+    simp [ser, serLen, crlf, List.append_assoc, hlen]
+  rw [hser]
+  unfold parseValue
+  rw [splitLine_line _ _ hline]
+  simp only
+  have hq : ((37 : UInt8) :: natDigits kvs.length == sb "%?") = false := by
+    rw [sb_pctq]
+    simp only [List.cons_beq_cons, beq_self_eq_true, Bool.true_and]
+    exact digits_ne_q kvs.length
+  have c1 : ((37 : UInt8) == 43) = false := by decide
+  have c2 : ((37 : UInt8) == 45) = false := by decide
+  have c3 : ((37 : UInt8) == 36) = false := by decide
+  have c4 : ((37 : UInt8) == 58) = false := by decide
+  have c5 : ((37 : UInt8) == 42) = false := by decide
+  have c6 : ((37 : UInt8) == 37) = true := by decide
+  simp only [c1, c2, c3, c4, c5, c6, hq, Bool.false_eq_true, ↓reduceIte,
+    lineCount, List.drop_succ_cons, List.drop_zero, parseInt64_natDigits kvs.length hc]
+  have hnn : ¬ ((kvs.length : Int) < 0) := by omega
+  simp only [hnn, ↓reduceIte, Int.toNat_natCast]
+  have := parseNMap_entries kvs hw f (pos + ((37 : UInt8) :: natDigits kvs.length).length + 2) rest [] (by simpa using hn) (by omega)
+    (fun e he => by have := hneed e he; omega)
+  simp only [canonEntries, List.map_nil, List.nil_append] at this
+  simp only [canonEntries]
+  rw [this]
+  simp [ser, serLen, crlf, hlen]
+  omega
+
+theorem ser_bulk_len_pos (b : Bytes) : 1 ≤ (ser (.bulk b)).length := by simp [ser, serLen, crlf]
+
+theorem serList_bulks_len (bs : List Bytes) : bs.length ≤ (serList (bs.map .bulk)).length := by
+  induction bs with
+  | nil => simp
+  | cons b r ih => rw [serList_bulks_cons]; have := ser_bulk_len_pos b; simp only [List.length_cons, List.length_append]; omega
+
+/-- … as a reply on the wire: one complete value, whatever follows -/
+theorem set_reply_is_one_value (bs : List Bytes) (hn : bs.Nodup) (hc : bs.length < 2 ^ 63) (hl : ∀ b ∈ bs, b.length < 2 ^ 63)
+    (rest : Bytes) :
+    parseRes (ser (.set (bs.map .bulk)) ++ rest) = .complete (.set (bs.map .bulk)) (ser (.set (bs.map .bulk))).length := by
+  unfold parseRes parse
+  have hlen : bs.length + 2 ≤ (ser (.set (bs.map .bulk)) ++ rest).length + 1 := by
+    have := serList_bulks_len bs
+    simp only [ser, serLen, crlf, List.length_append, List.length_cons, List.length_map]; omega
+  rw [parse_set_of_bulks bs hn hc hl rest _ 0 hlen]
+  simp
+
+theorem serPairs_entries_len : ∀ (kvs : List (Bytes × Value)),
+    kvs.length ≤ (serPairs (mapEntries kvs)).length ∧
+    ∀ kv ∈ kvs, (ser kv.2).length + kvs.length ≤ (serPairs (mapEntries kvs)).length := by
+  intro kvs
+  induction kvs with
+  | nil => simp [mapEntries, serPairs]
+  | cons e r ih =>
+    obtain ⟨k, v⟩ := e
+    have hk := ser_bulk_len_pos k
+    have hs : (serPairs (mapEntries ((k, v) :: r))).length =
+        (ser (.bulk k)).length + (ser v).length + (serPairs (mapEntries r)).length := by
+      simp [mapEntries, serPairs, Nat.add_assoc]
+    constructor
+    · rw [hs]; simp only [List.length_cons]; omega
+    · intro kv hkv
+      rw [hs]
+      rcases List.mem_cons.mp hkv with h | h
+      · subst h; simp only [List.length_cons]; omega
+      · have := ih.2 kv h; simp only [List.length_cons]; omega
+
+theorem map_reply_is_one_value (kvs : List (Bytes × Value)) (hn : (kvs.map (·.1)).Nodup) (hc : kvs.length < 2 ^ 63)
+    (hw : ∀ kv ∈ kvs, kv.1.length < 2 ^ 63 ∧ kv.2.wire = true) (rest : Bytes) :
+    parseRes (ser (.map (mapEntries kvs)) ++ rest) =
+      .complete (.map (canonEntries kvs)) (ser (.map (mapEntries kvs))).length := by
+  unfold parseRes parse
+  have hl := serPairs_entries_len kvs
+  have hlen : (ser (.map (mapEntries kvs))).length = (serLen 37 kvs.length).length + (serPairs (mapEntries kvs)).length := by
+    simp [ser, mapEntries]
+  have h4 : 3 ≤ (serLen 37 kvs.length).length := by simp [serLen, crlf]
+  rw [parse_map_of_bulk_keys kvs hn hc hw rest _ 0 (by simp only [List.length_append]; omega)
+    (fun kv hkv => by
+      have := need_le_len kv.2 (hw kv hkv).2
+      have := hl.2 kv hkv
+      simp only [List.length_append]; omega)]
+  simp
+
+/-- non-vacuity: the hypotheses are met by `~2 a b` and by `%2 a→1 b→[x]` -/
+theorem set_map_examples (rest : Bytes) :
+    parseRes (ser (.set ([[97], [98]].map .bulk)) ++ rest) =
+      .complete (.set ([[97], [98]].map .bulk)) (ser (.set ([[97], [98]].map .bulk))).length ∧
+    parseRes (ser (.map (mapEntries [([97], .int 1), ([98], .array [.bulk [120]])])) ++ rest) =
+      .complete (.map (canonEntries [([97], .int 1), ([98], .array [.bulk [120]])]))
+        (ser (.map (mapEntries [([97], .int 1), ([98], .array [.bulk [120]])]))).length :=
+  ⟨set_reply_is_one_value [[97], [98]] (by decide) (by decide) (by decide) rest,
+   map_reply_is_one_value [([97], .int 1), ([98], .array [.bulk [120]])] (by decide) (by decide)
+     (by intro kv hkv; simp at hkv; rcases hkv with h | h <;> subst h <;> simp [Value.wire, Value.allWire, inRange64, twoP63]) rest⟩
 
 end RedisEmu
